@@ -90,15 +90,24 @@ type explorer struct {
 
 	schedules, transitions, horizonHits, quiescentRuns, violatingRuns, confirmRuns atomic.Int64
 	maxPending                                                                     atomic.Int64
-	states                                                                         stateSet
-	expired, abort                                                                 atomic.Bool
+	// batched configurations: executions in which >= 1 page reached the exporter as several
+	// sub-batches / had a failed sub-batch followed by an acknowledged one / had that and the
+	// batching layer still answered success; pages handed over in total; executions ended by
+	// a panic of the code under test
+	execsSplit, execsPartial, execsSwallowed, pagesTotal, panics atomic.Int64
+	states                                                       stateSet
+	expired, abort                                               atomic.Bool
 
 	mu       sync.Mutex
 	outcomes map[string]int64
 	finals   map[string]int64
 	viols    map[string]*foundViolation
 	perLevel []map[string]int64
-	samples  []map[string]any
+	// first (smallest choice list of the first level) execution ended by a panic of the code under test
+	panicChoices []uint8
+	panicLevel   int
+	panicWhat    string
+	samples      []map[string]any
 }
 
 func newExplorer(r *ev.Run, cfg config, workers int, known map[string]bool) *explorer {
@@ -175,6 +184,24 @@ func (e *explorer) handle(t *testing.T, level int, tk task, collect bool, out *[
 	}
 	if x.horizonHit {
 		e.horizonHits.Add(1)
+	}
+	e.pagesTotal.Add(int64(x.pages))
+	if x.splitPages > 0 {
+		e.execsSplit.Add(1)
+	}
+	if x.partialPages > 0 {
+		e.execsPartial.Add(1)
+	}
+	if x.swallowed > 0 {
+		e.execsSwallowed.Add(1)
+	}
+	if x.crash != "" {
+		e.panics.Add(1)
+		e.mu.Lock()
+		if e.panicChoices == nil || (level == e.panicLevel && lessChoices(x.choices, e.panicChoices)) {
+			e.panicChoices, e.panicLevel, e.panicWhat = append([]uint8{}, x.choices...), level, x.crash
+		}
+		e.mu.Unlock()
 	}
 	if x.quiescent {
 		e.quiescentRuns.Add(1)
